@@ -353,6 +353,11 @@ where
 
         let value = match (values, inline_binary) {
             (None, None) => PrimitiveValue::Empty.into(),
+            (None, Some(_)) if vr == VR::SQ => {
+                return Err(A::Error::custom(
+                    "\"InlineBinary\" is not applicable to a sequence (SQ)",
+                ));
+            }
             (None, Some(inline_binary)) => {
                 // decode from Base64
                 use base64::Engine;
